@@ -322,10 +322,15 @@ def has_type(x, t, next_ref=None):
     if k == 'val': return is_val(t.cls, x)
     if k in ('list', 'dict', 'set', 'obj', 'opaque'):
         name = {'list': 'list', 'dict': 'dict', 'set': 'set'}.get(k) or (t.cls if k == 'obj' else t.name)
-        c = [is_ref(x), addr(x) > 0, tyof(addr(x)) == type_id(name)]
+        names = sorted({name} | set(SUBCLASSES.get(name, ())))
+        tids = [tyof(addr(x)) == type_id(n) for n in names]
+        c = [is_ref(x), addr(x) > 0, tids[0] if len(tids) == 1 else z3.Or(*tids)]
         if next_ref is not None: c.append(addr(x) < next_ref)
         return z3.And(*c)
     raise NotImplementedError(k)
+
+
+SUBCLASSES = {}      # class name -> names of its (transitive) subclasses among the classes with a ClassInfo
 
 
 def strip_opt(t):
